@@ -15,8 +15,9 @@
 (*           lives as long as the cache entry it was put on)               *)
 (*   ncs     provider ids that saw a NodeClaim delivery since the last     *)
 (*           delivery of their Node (only used to classify a failure)      *)
-(*   shape / reshaped  the shape each pod name was last created with and   *)
-(*           the names re-created with a different shape (classification)  *)
+(*   shape / reshaped / dsflip  the shape each pod name was last created   *)
+(*           with, the names re-created with a different shape and those   *)
+(*           whose daemonset ownership changed thereby (classification)    *)
 (* At every Mem with pend = {} the cache view must equal F(api, marks),    *)
 (* field by field; failures are accumulated per field and per state node   *)
 (* with a signature that names the witness class.                          *)
@@ -37,13 +38,14 @@ V(guard, sig) == [line |-> l, guard |-> guard, sig |-> sig]
 Chk(ok, guard, sig) == IF ok THEN <<>> ELSE <<V(guard, sig)>>
 
 St0(cfg) == [keys |-> Range(cfg.pids) \cup Range(cfg.nodes), pools |-> Range(cfg.pools), pend |-> {}, marks |-> {}, ncs |-> {},
-             shapes |-> cfg.shapes, shape |-> [p \in Range(cfg.pods) |-> "none"], reshaped |-> {}]
+             shapes |-> cfg.shapes, shape |-> [p \in Range(cfg.pods) |-> "none"], reshaped |-> {}, dsflip |-> {}]
 TraceInit == l = 1 /\ st = [keys |-> {}, pools |-> {}, pend |-> {}, marks |-> {}, ncs |-> {}, shapes |-> <<>>, shape |-> <<>>,
-                            reshaped |-> {}]
+                            reshaped |-> {}, dsflip |-> {}]
              /\ viol = <<>> /\ ntr = 0 /\ nq = 0 /\ done = FALSE
 
 \* ---------------------------------------------------------------- Step / Deliver: ghost bookkeeping
-ShapeOf(z) == IF z = "alt" THEN "alt" ELSE "std"
+ShapeNames == {"std", "alt", "bare"}
+ShapeOf(z) == IF z \in ShapeNames THEN z ELSE "std"
 TStep ==
     /\ Ev.e = "Step"
     /\ st' = [st EXCEPT
@@ -55,7 +57,11 @@ TStep ==
                    ELSE IF Ev.a = "Unmark" THEN @ \ {Ev.x} ELSE @,
          !.ncs = IF Ev.a = "Restart" THEN {} ELSE @,
          !.shape = IF Ev.a = "CreatePod" THEN [@ EXCEPT ![Ev.x] = ShapeOf(Ev.z)] ELSE @,
-         !.reshaped = IF Ev.a = "CreatePod" /\ st.shape[Ev.x] \notin {"none", ShapeOf(Ev.z)} THEN @ \cup {Ev.x} ELSE @]
+         !.reshaped = IF Ev.a = "Restart" THEN {}
+                      ELSE IF Ev.a = "CreatePod" /\ st.shape[Ev.x] \notin {"none", ShapeOf(Ev.z)} THEN @ \cup {Ev.x} ELSE @,
+         !.dsflip = IF Ev.a = "Restart" THEN {}
+                    ELSE IF Ev.a = "CreatePod" /\ st.shape[Ev.x] # "none"
+                            /\ st.shapes[Ev.x][st.shape[Ev.x]].ds # st.shapes[Ev.x][ShapeOf(Ev.z)].ds THEN @ \cup {Ev.x} ELSE @]
     /\ UNCHANGED <<viol, nq>>
 
 TDeliver ==
@@ -83,28 +89,42 @@ FS(k) == FStateNode(Api, st.marks, k)
 \* ---- witness classes (signatures).  A state node's usage can only be wrong in the listed known ways if ...
 \* pods that exist unbound (a predecessor of the same name may still be tracked on this node)
 Unbound == {p \in DOMAIN Api.pods : Api.pods[p].ex /\ Api.pods[p].node = "" /\ ~Api.pods[p].term}
-\* a tracked predecessor may have had either shape of its name: S phantom pods, those in A with the alternative shape
-PhPods(S, A) == [p \in DOMAIN Api.pods |-> IF p \in A THEN st.shapes[p].alt ELSE IF p \in S THEN st.shapes[p].std ELSE Api.pods[p]]
-\* the field value a node shows when exactly the pods T (described by pf) are counted on it
-FieldWith(pf, fld, T) ==
-    CASE fld = "req" -> ReqOf(pf, T)
-      [] fld = "dreq" -> ReqOf(pf, {p \in T : pf[p].ds})
-      [] fld = "ports" -> PortsOf(pf, T)
-      [] fld = "vols" -> VolsOf(pf, T)
-      [] fld = "cost" -> CostOf(pf, T)
+\* A known defect explains a difference only if the WHOLE picture fits it (a signature must not swallow another defect):
+\*  - a stale binding (F-C11-3) keeps every aggregate of the phantom pod, so the same phantom pods S (each in one of the
+\*    shapes sa of its name) must explain the node's requests AND the field at hand;
+\*  - an entry kept after a change of daemonset ownership (F-C11-5) concerns pods D that are on the node now, whose name
+\*    changed ownership, and adds exactly the entry of one of their other-ownership shapes da;
+\*  - volumes kept after a same-name replacement (F-C11-4) are volumes of some shape of a re-shaped pod counted on the node;
+\*  - usage kept after the Node vanished (F-C11-2) is only accepted while the API has no Node for the state node.
+PhPods(S, sa) == [p \in DOMAIN Api.pods |-> IF p \in S THEN st.shapes[p][sa[p]] ELSE Api.pods[p]]
+ReqAdd(a, b) == [cpu |-> a.cpu + b.cpu, mem |-> a.mem + b.mem, pods |-> a.pods + b.pods]
+ShapeVols(T) == UNION {{st.shapes[p][sh].vol : sh \in ShapeNames} : p \in T} \ {"-"}
+Explains(k, fld, S, sa, D, da) ==
+    LET m == M.sn[k]  pf == PhPods(S, sa)  T == FPodsOn(Api, k) \cup S  df == PhPods(D, da)
+    IN /\ m.req = ReqOf(pf, T)
+       /\ CASE fld = "req" -> D = {}
+            [] fld = "ports" -> D = {} /\ m.ports = PortsOf(pf, T)
+            [] fld = "vols" -> /\ VolsOf(pf, T) \subseteq m.vols
+                               /\ (m.vols \ VolsOf(pf, T)) \subseteq (IF D = {} THEN {} ELSE ShapeVols(D))
+            [] fld = "dreq" -> /\ \A p \in D : ~pf[p].ds /\ df[p].ds
+                               /\ m.dreq = ReqAdd(ReqOf(pf, {p \in T : pf[p].ds}), ReqOf(df, D))
+            [] fld = "cost" -> /\ \A p \in D : pf[p].ds /\ ~df[p].ds
+                               /\ m.cost = CostOf(pf, T) + SumSet(D, [p \in D |-> Max2(0, EvCost(df[p]))])
+\* candidates for D: pods counted on the node (really, or as phantoms of S) whose name was re-shaped (volumes) / changed
+\* daemonset ownership (entries) - a tracked predecessor carries along what an earlier replacement left on it
+DCand(k, fld, S) == (FPodsOn(Api, k) \cup S)
+                    \cap (IF fld = "vols" THEN st.reshaped ELSE IF fld \in {"dreq", "cost"} THEN st.dsflip ELSE {})
+Explained(k, fld, needS, needD) ==
+    \E S \in SUBSET Unbound : (S # {}) = needS /\ \E sa \in [S -> ShapeNames] :
+    \E D \in SUBSET DCand(k, fld, S) : (D # {}) = needD /\ \E da \in [D -> ShapeNames] : Explains(k, fld, S, sa, D, da)
+KeptSig(fld) == IF fld = "vols" THEN "volumes-kept-after-same-name-pod-replaced" ELSE "entry-kept-after-daemonset-ownership-change"
 UsageSig(k, fld) ==
-    LET f == FS(k)  m == M.sn[k]  P == FPodsOn(Api, k)
+    LET f == FS(k)  m == M.sn[k]
     IN IF ~f.node.ex THEN "usage-kept-after-node-gone"
-       ELSE IF \E S \in SUBSET Unbound : S # {} /\ \E A \in SUBSET S : m[fld] = FieldWith(PhPods(S, A), fld, P \cup S)
-            THEN "stale-binding-of-recreated-unbound-pod"
-       ELSE IF fld = "cost" /\ k \in st.ncs /\ \E T \in SUBSET P : m.cost = CostOf(Api.pods, T)
-            THEN "reset-by-nodeclaim-update"
-       ELSE IF fld = "cost" /\ k \in st.ncs
-               /\ \E S \in SUBSET Unbound : \E A \in SUBSET S : \E T \in SUBSET (P \cup S) : m.cost = CostOf(PhPods(S, A), T)
-            THEN "reset-by-nodeclaim-update+stale-binding"
-       ELSE IF fld = "vols" /\ st.reshaped # {} /\ f.vols \subseteq m.vols
-            THEN "volumes-kept-after-same-name-pod-replaced"
-       ELSE IF fld \in {"req", "dreq", "cost"} THEN (IF m[fld] = FieldWith(Api.pods, fld, {}) THEN "other:empty" ELSE "other")
+       ELSE IF Explained(k, fld, TRUE, FALSE) THEN "stale-binding-of-recreated-unbound-pod"
+       ELSE IF Explained(k, fld, FALSE, TRUE) THEN KeptSig(fld)
+       ELSE IF Explained(k, fld, TRUE, TRUE) THEN "stale-binding+" \o KeptSig(fld)
+       ELSE IF fld \in {"req", "dreq", "cost"} THEN (IF m[fld] = f[fld] THEN "-" ELSE IF m.req = f.req THEN "other:requests-agree" ELSE "other")
        ELSE "other"
 UsageChk(fld, guard) ==
     Flat([i \in 1..Len(SetToSeq(Keys)) |->
